@@ -214,6 +214,7 @@ class Run:
         self.selfcheck_runs = 0
         self.samples = []
         self.fp = []
+        self.crosshair = []
 
     def problem(self, msg):
         log("INCONCLUSIVE:", msg)
@@ -446,6 +447,24 @@ def execute(prop, tier, seed):
             run.fp.append({"divisor": d, "rounding": m, "range": list(fp_range), "proved": ok, "solver": who, "seconds": secs})
             if not ok:
                 run.problem(f"float-division lemma for divisor {d} ({m}) over {fp_range} not proved")
+    # ---- second engine (CrossHair) where a property registers contracts for it
+    files = getattr(prop, "CROSSHAIR", []) if tier == "thorough" else []
+    for f in files:
+        t1 = time.time()
+        env = dict(os.environ, VERIF_REPO=repo)
+        try:
+            p = subprocess.run([sys.executable, "-m", "crosshair", "check", "--report_all", "--per_condition_timeout", "60",
+                                os.path.join(VERIF, f)], capture_output=True, text=True, timeout=900, env=env, cwd=VERIF)
+            out = (p.stdout or "") + (p.stderr or "")
+        except Exception as e:   # noqa: BLE001
+            out = f"crosshair failed to run: {e}"
+        confirmed = out.count("Confirmed over all paths")
+        counter = [l for l in out.splitlines() if " error: " in l]
+        other = [l for l in out.splitlines() if "Not confirmed" in l or "Unable to meet precondition" in l]
+        run.crosshair.append({"file": f, "confirmed_over_all_paths": confirmed, "counterexamples": counter[:5], "inconclusive": other[:5],
+                              "seconds": round(time.time() - t1, 1)})
+        if counter and not run.violations:
+            run.problem(f"engine disagreement: CrossHair reports a counterexample in {f} that vsx did not find: {counter[0][:300]}")
     # ---- cleanup scratch roots
     for name, root in roots.items():
         if name != "src":
@@ -522,6 +541,7 @@ def write_evidence(prop, run, tier, seed):
         "selfcheck_vectors": int(run.selfcheck_runs),
         "float_lemmas": run.fp,
         "second_solver_cvc5": _second_total(agg),
+        "second_engine_crosshair": run.crosshair,
         "inconclusive_reasons": run.problems[:20],
         "known_findings_hit": [k.get("id", "") for k, _, _ in run.known_hits],
         "per_job": {name: {"status": a["status"], "paths": a["stats"].get("paths", 0), "queries": a["stats"].get("queries", 0),
